@@ -72,6 +72,9 @@ RepeatSaveViol(ev) ==
     \cup V(SameFileModStrings(ev.S1, ev.S2), "SecondSaveSameAsFirst")
     \cup V(SameFileModStrings(ev.S2, ev.S3), "ThirdSaveSameAsSecond")
     \cup V(ev.q0 = ev.q1, "QueriesUnchangedByFirstSave")
+    \* answers that name things (parents, bones, skeleton roots, shaders, textures) also survive the first, sorting default save
+    \* (not after random block-graph edits: those may leave several candidate roots, and which one a sort puts first is C04's)
+    \cup V(ev.variant = "edited" \/ (ev.namesBefore = ev.namesAfterFirst /\ ev.namesAfterFirst = ev.namesEnd), "NamedAnswersUnchangedByAnySave")
     \cup V(ev.q1 = ev.q2 /\ ev.q2 = ev.q3, "QueriesUnchangedByLaterSaves")
 
 (* ---------------- C03: blocks relabelled as unknown survive untouched ---------------- *)
